@@ -4,4 +4,7 @@ C(v, dp, ip, ix, f, np) == [ver |-> v, dpad |-> dp, ipad |-> ip, idx |-> ix, ful
 CliConts == { C(1, 0, 0, "none", FALSE, 0), C(2, 0, 0, "mh", FALSE, 0), C(2, 1, 7, "sorted", FALSE, 0), C(2, 59, 0, "none", FALSE, 0) }
 CliRoots == { <<>>, <<"b1">>, <<"b3", "b4">> }
 CliIds   == {"b1", "b2", "b3", "b4", "b5", "b13", "b14"}
+FConts == { C(1, 0, 0, "none", FALSE, 0), C(2, 0, 0, "mh", FALSE, 0) }
+FRoots == { <<"b1">> }
+FIds   == {"b1", "b4", "b2"}
 =============================================================================
